@@ -81,7 +81,7 @@ var specs = map[string]*spec{
 		Rule: "one run = one seeded cluster simulation starting from 1-4 voters with a membership client issuing add-non-voter / add-voter / promote / remove (incl. the leader) back-to-back, to any node, without waiting, under partitions and crashes. Non-trivial: >= 2 configuration entries committed and >= 1 fault fired. Distinct: distinct event-log hashes among those.",
 		Probes: []string{"config-entry-committed", "commit-quorum-checked", "membership-change-applied-by-its-leader", "leader-elected"}},
 	"C12": {ID: "C12", Profiles: []string{"disk-C12"}, Engine: "disk", Accept: []string{"C12"}, Level: "fault_enumeration",
-		Rule: "one program = a seeded sequence (1-12 calls, longer in thorough) of append / append-batch / truncate / compact / discard / close+reopen on the repository's file-backed log over the simulated disk. For every program the crash points are enumerated completely: before every storage operation, after the last, and inside every write (quick: header bytes + sampled offsets, thorough: every byte). evaluations = crash points executed (each one a fresh execution of the program, a crash, a reopen with the repository's code and a comparison with the model through the public API; a third of them continue with more operations and a second crash). distinct_nontrivial = distinct disk images at the crash instant, per program."},
+		Rule: "one program = a seeded sequence (1-12 calls, longer in thorough) of append / append-batch / truncate / compact / discard / close+reopen on the repository's file-backed log over the simulated disk. For every program the crash points are enumerated completely: before every storage operation, after the last, and inside every write (quick: header bytes + sampled offsets; thorough: every byte of every write up to 2 KiB, for larger writes every byte of the first and last 64 plus a stride of 1/128 of the write). evaluations = crash points executed (each one a fresh execution of the program, a crash, a reopen with the repository's code and a comparison with the model through the public API; a third of them continue with more operations and a second crash). distinct_nontrivial = distinct disk images at the crash instant, per program."},
 	"C13": {ID: "C13", Profiles: []string{"disk-C13"}, Engine: "disk", Accept: []string{"C13"}, Level: "fault_enumeration",
 		Rule: "one program = a seeded sequence of SetState / NewSnapshotFile + writes (0 B to beyond one transfer chunk) + Close|Discard / SnapshotFile / reopen (up to 40 snapshots) on the repository's term/vote and snapshot storages over the simulated disk. Crash points as for C12. After every crash: storages and NewRaft must be constructible at the first attempt, State() = last returned or in-flight value, SnapshotFile() = most recent successfully closed snapshot, complete. evaluations = crash points executed; distinct_nontrivial = distinct disk images at the crash instant, per program."},
 	"C16": {ID: "C16", Profiles: []string{"sticky"}, Engine: "cluster", Accept: []string{"C16"}, Level: "exploration",
